@@ -53,7 +53,7 @@ NORMQ = 'map Qred'
 
 # op -> (imports, term builder, canonicaliser of the driver's decoded answer)
 def _nkeep(a):
-    return 'nkeep %s %d%%positive %s' % (sel(a[0]), a[1], lst(xnum, a[2]))
+    return 'nkeepN %s %d%%N %s' % (sel(a[0]), a[1], lst(xnum, a[2]))
 
 
 def _rebin(a):
@@ -97,7 +97,7 @@ OPS = {'nkeep': _nkeep, 'rebin': _rebin, 'interp_clamp': _interp_clamp, 'mono': 
 
 HEADER = '''From Coq Require Import QArith ZArith List.
 Import ListNotations.
-From SedV Require Import Xnum Keep PLin FilterOut FitModel Grid Table FTable TableProofs ConvolveM MonoM SedIO SedIOM.
+From SedV Require Import Xnum Keep Keep0 PLin FilterOut FitModel Grid Table FTable TableProofs ConvolveM MonoM SedIO SedIOM.
 Definition qz (x : Q) : Z * Z := let y := Qred x in (Qnum y, Zpos (Qden y)).
 '''
 
